@@ -429,6 +429,22 @@ func (ex *Exec) verifCall(fn *ssa.Function, args []Value, fr *Frame) Value {
 			return ex.i64(0)
 		}
 		return ex.i64(int64(len(a.Arr.Val.(ArrayV))))
+	case "verifWatchLockDeep":
+		// verifWatchLockDeep(obj, mutex, pkgPaths...): like verifWatchLock, extended to every object of a
+		// named type from the given packages that is or becomes reachable from *obj
+		op := args[0].(*IfaceV).Val.(*Pointer)
+		mp, _ := args[1].(*IfaceV).Val.(*Pointer)
+		if op.IsNil() || mp == nil || mp.IsNil() {
+			panic(unsupported("verifWatchLockDeep on nil"))
+		}
+		w := &lockWatch{mutex: mp, exempt: map[int]bool{}, name: typeStr(args[0].(*IfaceV).Typ)}
+		for _, n := range ex.stringSliceElems(args[2]) {
+			g, _ := ex.goString(n)
+			w.deep = append(w.deep, g)
+		}
+		ex.watchLock[op.Obj] = w
+		ex.watchDeepValue(w, op.Obj.Val)
+		return nil
 	case "verifWatchLock":
 		// verifWatchLock(obj, mutex, exemptFieldNames...): from now on every access to a field of *obj must
 		// happen with the mutex held (lock-set discipline; sequential harnesses)
@@ -488,6 +504,12 @@ func (ex *Exec) verifCall(fn *ssa.Function, args []Value, fr *Frame) Value {
 			ex.invoke(d.fv, d.args, fr)
 		}
 		return nil
+	case "verifParked":
+		// number of blocking receives the current thread has committed to so far on this path
+		if ex.inThread() {
+			return ex.i64(int64(ex.tm.parks))
+		}
+		return ex.i64(0)
 	case "verifSpawnedCount":
 		lst, _ := ex.ghost["spawned"].([]deferred)
 		return ex.i64(int64(len(lst)))
